@@ -303,7 +303,7 @@ def replay_transition(t: dict, read_each: bool = False, ask_each: bool = False) 
         if last[0] != "value" or (graph_ok and sorted(map(tuple, last[1])) != sorted(map(tuple, exp_res[1]))):
             out["c08"].append(["per-node view differs from the specification", c, last, exp_res])
     cached_before = U.cached()
-    if graph_ok and not read_each and sorted(cached_before) != sorted(t["cached"]):   # (reads after every call memoise everything)
+    if graph_ok and not read_each and not ask_each and sorted(cached_before) != sorted(t["cached"]):   # (reads after every call memoise everything)
         out["drift"].append(["memoised set differs from the model", cached_before, t["cached"]])
     allr = U.read_all()
     for k in LOOKUPS:
